@@ -1,6 +1,9 @@
 package main
 
 import (
+	"strings"
+	"sort"
+	"fmt"
 	"go/token"
 	"go/types"
 
@@ -12,13 +15,27 @@ func init() { register("C18", c18) }
 // reachableUnder computes the blocks reachable from the entry when the given boolean SSA values are fixed.
 func reachableUnder(fn *ssa.Function, assign map[ssa.Value]bool) map[*ssa.BasicBlock]bool {
 	seen := map[*ssa.BasicBlock]bool{}
-	var eval func(v ssa.Value) (bool, bool)
-	eval = func(v ssa.Value) (bool, bool) {
+	// path-sensitive for boolean phis: the value of a phi is that of the edge the path came in on (single-exit code and
+	// inlined helpers merge a test's outcome into a flag that is branched on later)
+	type frame struct {
+		b    *ssa.BasicBlock
+		from *ssa.BasicBlock
+		env  map[ssa.Value]bool
+	}
+	visited := map[string]bool{}
+	var eval func(v ssa.Value, env map[ssa.Value]bool) (bool, bool)
+	eval = func(v ssa.Value, env map[ssa.Value]bool) (bool, bool) {
 		if b, ok := assign[v]; ok {
 			return b, true
 		}
+		if b, ok := env[v]; ok {
+			return b, true
+		}
+		if rv := resolveLocal(v); rv != v {
+			return eval(rv, env)
+		}
 		if u, ok := v.(*ssa.UnOp); ok && u.Op == token.NOT {
-			if b, ok := eval(u.X); ok {
+			if b, ok := eval(u.X, env); ok {
 				return !b, true
 			}
 		}
@@ -26,33 +43,81 @@ func reachableUnder(fn *ssa.Function, assign map[ssa.Value]bool) map[*ssa.BasicB
 			return c.Value.String() == "true", true
 		}
 		if bo, ok := v.(*ssa.BinOp); ok && (bo.Op == token.EQL || bo.Op == token.NEQ) && isBool(bo.X.Type()) {
-			x, okx := eval(bo.X)
-			y, oky := eval(bo.Y)
+			x, okx := eval(bo.X, env)
+			y, oky := eval(bo.Y, env)
 			if okx && oky {
 				return (x == y) == (bo.Op == token.EQL), true
 			}
 		}
 		return false, false
 	}
-	st := []*ssa.BasicBlock{fn.Blocks[0]}
-	for len(st) > 0 {
-		b := st[len(st)-1]
+	st := []frame{{fn.Blocks[0], nil, map[ssa.Value]bool{}}}
+	steps := 0
+	for len(st) > 0 && steps < 200000 {
+		steps++
+		fr := st[len(st)-1]
 		st = st[:len(st)-1]
-		if seen[b] {
+		b := fr.b
+		env := fr.env
+		// phis of this block, from the edge taken
+		changed := false
+		for _, ins := range b.Instrs {
+			ph, ok := ins.(*ssa.Phi)
+			if !ok {
+				break
+			}
+			if !isBool(ph.Type()) || fr.from == nil {
+				continue
+			}
+			for ei, p := range b.Preds {
+				if p == fr.from {
+					if val, known := eval(ph.Edges[ei], env); known {
+						if !changed {
+							n := make(map[ssa.Value]bool, len(env)+1)
+							for k, v := range env {
+								n[k] = v
+							}
+							env, changed = n, true
+						}
+						env[ph] = val
+					} else if _, had := env[ph]; had {
+						if !changed {
+							n := make(map[ssa.Value]bool, len(env)+1)
+							for k, v := range env {
+								n[k] = v
+							}
+							env, changed = n, true
+						}
+						delete(env, ph)
+					}
+				}
+			}
+		}
+		// memo key: block + known phi values
+		var ks []string
+		for k, v := range env {
+			ks = append(ks, fmt.Sprintf("%s=%v", k.Name(), v))
+		}
+		sort.Strings(ks)
+		key := fmt.Sprintf("%d|%s", b.Index, strings.Join(ks, ","))
+		if visited[key] {
 			continue
 		}
+		visited[key] = true
 		seen[b] = true
 		if iff, ok := b.Instrs[len(b.Instrs)-1].(*ssa.If); ok {
-			if v, known := eval(iff.Cond); known {
+			if v, known := eval(iff.Cond, env); known {
 				if v {
-					st = append(st, b.Succs[0])
+					st = append(st, frame{b.Succs[0], b, env})
 				} else {
-					st = append(st, b.Succs[1])
+					st = append(st, frame{b.Succs[1], b, env})
 				}
 				continue
 			}
 		}
-		st = append(st, b.Succs...)
+		for _, s := range b.Succs {
+			st = append(st, frame{s, b, env})
+		}
 	}
 	return seen
 }
